@@ -35,4 +35,26 @@ theorem tasks_is_source (sc : Scene R) (own : Safety R) (skip : List Nat) (i j :
     SrcColl.tasksSrc sc own skip = tasks sc own skip ∧ SrcColl.checkRequiredSrc own skip i j = checkRequired own skip i j :=
   ⟨tasksSrc_eq sc own skip, checkRequiredSrc_eq own skip i j⟩
 
+/-- [G] the public methods of `RobotBody` as the CURRENT source text wires them — `collision_details` (own table, own mode),
+`near` (the table handed in, its mode; pairs still gated by the OWN table), `collides` (false in NoCheck, else first-collision
+over all tasks), `process_collision_tasks` (override or own mode; nothing / any one / all) — are the model's functions on which
+the C10 theorems are stated -/
+theorem robotBody_is_source (sc : Scene R) (own other : Safety R) (om : Option CheckMode) (ts : List (Nat × Nat))
+    (choice : List (Nat × Nat) → Option (Nat × Nat)) :
+    SrcColl.collisionDetailsSrc sc own other choice = collisionDetails sc own choice ∧
+    SrcColl.nearSrc sc own other choice = near sc own other choice ∧
+    SrcColl.collidesSrc sc own choice = collides sc own choice ∧
+    SrcColl.processTasksSrc sc other om ts choice = processTasks sc other (om.getD other.mode) ts choice :=
+  ⟨collisionDetailsSrc_eq .., nearSrc_eq .., collidesSrc_eq .., processTasksSrc_eq ..⟩
+
+/-- [G] `RobotBody::non_colliding_offsets` as the CURRENT source text has it (read as one idiom by the translator: twelve
+candidates joint by joint towards `from` then `to`, limits first, everything legal offered in NoCheck mode, otherwise the
+first-collision check with the body's own table skipping the unchanged links before the tweaked joint) is the model's
+`nonCollidingOffsets`, about which `offsets_exact` (C14) is proved -/
+theorem nonCollidingOffsets_is_source (sceneAt : J6 R → Scene R) (unchanged : J6 R → Nat → Bool) (own : Safety R)
+    (cons : Option (Constraints R)) (initial f t : J6 R) (choice : List (Nat × Nat) → Option (Nat × Nat)) :
+    SrcColl.nonCollidingOffsetsSrc sceneAt unchanged own cons initial f t choice =
+      nonCollidingOffsets sceneAt unchanged own cons initial f t choice :=
+  nonCollidingOffsetsSrc_eq sceneAt unchanged own cons initial f t choice
+
 end Opw.TieColl
